@@ -127,13 +127,22 @@ impl crate::graph::GraphRunner for MTGraph {
             threads.push(th);
         }
         debug!("Joining threads");
+        let mut first_error = None;
         for (n, th) in threads.into_iter().rev().enumerate() {
             let name = th.thread().name().unwrap().to_string();
             debug!("Waiting for {}", name);
-            let j = th
-                .join()
-                .expect("joining thread")
-                .expect("block exit status");
+            let j = match th.join().expect("joining thread") {
+                Ok(stats) => stats,
+                Err(e) => {
+                    // The block's work function failed. Its thread is gone, and
+                    // with it its streams, so the rest of the graph winds down.
+                    // Report the (first) failure once all threads are done.
+                    if first_error.is_none() {
+                        first_error = Some(e);
+                    }
+                    BlockStats::default()
+                }
+            };
             debug!("Thread {} finished with {:?}", name, j);
             self.block_stats.insert((n, name), j);
         }
@@ -144,7 +153,10 @@ impl crate::graph::GraphRunner for MTGraph {
                 info!("{}", line);
             }
         }
-        Ok(())
+        match first_error {
+            Some(e) => Err(e),
+            None => Ok(()),
+        }
     }
 
     /// Return a string with stats about where time went.
